@@ -439,6 +439,13 @@ def txt_chunks(ctx, report, rule='C08.R7'):
                     if joined != text else ('writes a character-string of %s octets' % too_long if too_long else 'writes %r' % strings[:2])
                 report.add(rule, f.construct + '@chunks', 'a text of %d characters: the composer %s' % (n, what))
                 return
+            want_count = max(1, -(-n // 255))
+            if len(strings) != want_count:
+                # the chunking is the canonical one (full strings, then the rest): an extra empty character-string is valid RDATA
+                # but not the bytes the text was parsed from - composing what was parsed changes the record
+                report.add(rule, f.construct + '@chunks', 'a text of %d characters is written as %d character-strings (sizes %s), %d are needed: '
+                           'RDATA that was parsed is not composed back byte for byte' % (n, len(strings), [len(v) for v, _ in strings][-3:], want_count))
+                return
     except (Unsupported, Raised) as e:
         report.add(rule, f.construct + '@tabulation', 'DnsRecordTxt.compose left the subset the tabulation understands: %s' % e)
 
